@@ -201,6 +201,10 @@ def run_c15(R, tier, rng):
         i0 = n // 2
         C.cmp(f"tuple-int {tag} [({i0},)]", "int/tuple", nt, lambda: [key(mk()[(i0,)])], lambda: [key(A[(i0,)])], py=f"rla[({i0},)]  rla = from_array({a!r}, {dt})")
         C.cmp(f"ellipsis-int {tag} [..., {-1}]", "int/ellipsis", nt, lambda: [key(mk()[..., -1])], lambda: [key(A[-1])], py=f"rla[..., -1]  rla = from_array({a!r}, {dt})")
+        # the Ellipsis AFTER the index (numpy accepts it on either side)
+        C.cmp(f"int-ellipsis {tag} [{i0}, ...]", "int/ellipsis-after", nt, lambda: [key(mk()[i0, ...])], lambda: [key(A[i0])], py=f"rla[{i0}, ...]  rla = from_array({a!r}, {dt})")
+        C.cmp(f"slice-ellipsis {tag} [1:4, ...]", "slice/ellipsis-after", nt, lambda: rl_obs(mk()[1:4, ...], 1, with_canon=False), lambda: spec_rl(A[1:4, ...], canon=False), py=f"rla[1:4, ...]  rla = from_array({a!r}, {dt})")
+        C.cmp(f"list-ellipsis {tag} [[0, {n - 1}], ...]", "list/ellipsis-after", nt, lambda: dense_obs(mk()[[0, n - 1], ...]), lambda: dense_obs(A[[0, n - 1], ...]), py=f"rla[[0, {n - 1}], ...]  rla = from_array({a!r}, {dt})")
         C.cmp(f"ellipsis {tag} [...]", "ellipsis", nt, lambda: rl_obs(mk()[...], 1, with_canon=False), lambda: spec_rl(A[...], canon=False), py=f"rla[...]  rla = from_array({a!r}, {dt})")
         C.cmp(f"tuple-slice {tag} [(1::2,)]", "slice/tuple", nt, lambda: rl_obs(mk()[(slice(1, None, 2),)], 1, with_canon=False), lambda: spec_rl(A[(slice(1, None, 2),)], canon=False),
               py=f"rla[(slice(1, None, 2),)]  rla = from_array({a!r}, {dt})")
@@ -253,6 +257,12 @@ def run_c15(R, tier, rng):
             if wi == 2:
                 ss += [n // 2, n, 0, min(n, 2)]; ee += [n // 2, n, 0, min(n, 2) - 1]
                 if all(s >= e for s, e in zip(ss, ee)): ss.append(0); ee.append(n)      # (the dtype of a result without elements is not compared)
+            if wi == 1 and n <= 250:      # the bound vectors as unsigned arrays, empty windows (start > stop) included (F39)
+                us = ss + [n, min(n, 3)]; ue = ee + [0, 1]
+                def uwin():
+                    ra = mk()[np.array(us, dtype=np.uint8):np.array(ue, dtype=np.uint8)].to_array()
+                    return {"rows": kl(ra.tolist())}
+                C.cmp(f"windows/uint8 {tag} {us} {ue}", "windows/unsigned-bounds", nt, uwin, lambda: {"rows": [kl(A[s:e]) for s, e in zip(us, ue)]}, py=f"rla[np.array({us}, dtype=np.uint8):np.array({ue}, dtype=np.uint8)].to_array()")
             def win():
                 r = mk()[np.array(ss):np.array(ee)]
                 ra = r.to_array()
@@ -341,6 +351,13 @@ def run_c16(R, tier, rng):
             C.cmp(f"max {vn} {tag}", "max/" + vn, nt, lambda: num(mkv().max(), dense.max()), lambda: key(dense.max()))
             if dt != "bool" or True:
                 bins = [-3, 0, 1, 2, 4, 2 ** 41]
+                if vn == "plain" and dt != "bool":      # the keyword forms: density, range, an integer number of bins (edges and densities compared bit by bit)
+                    hk = lambda h: [kl(h[0]), kl(h[1])]
+                    for kname, kw in (("density", dict(bins=bins, density=True)), ("range+bins", dict(bins=4, range=(-3.0, 5.0))), ("positional-bins", None)):
+                        if kw is None:
+                            C.cmp(f"histogram positional {tag}", "histogram/keywords", nt, lambda: hk(np.histogram(mkv(), 5, (-2.0, 8.0))), lambda: hk(np.histogram(dense, 5, (-2.0, 8.0))), py=f"np.histogram(from_array({a!r}, {dt}), 5, (-2.0, 8.0))")
+                        else:
+                            C.cmp(f"histogram {kname} {tag}", "histogram/keywords", nt, lambda: hk(np.histogram(mkv(), **kw)), lambda: hk(np.histogram(dense, **kw)), py=f"np.histogram(from_array({a!r}, {dt}), **{kw!r})")
                 C.cmp(f"histogram {vn} {tag}", "histogram/" + vn, nt, lambda: kl(np.histogram(mkv(), bins=bins)[0]), lambda: kl(np.histogram(dense.astype(float) if dt == "bool" else dense, bins=bins)[0]),
                       py=f"np.histogram(<{vn} of from_array({a!r}, {dt})>, bins={bins})")
         if ci % 3 == 1:
